@@ -7,6 +7,7 @@ import Model.Enfold
 import Model.CachedGuard
 import Model.Migration
 import Model.InquiryEq
+import Model.Serialize
 /-!
 # `vaktdrv`: one case per line in, one result per line out
 -/
@@ -244,6 +245,21 @@ def handle (toks : List String) : Option String :=
   | "CANON" :: ts => do
     let v ← full (pVal ts)
     pure ("ok " ++ showVal (Vakt.canon v))
+  | "DECODE" :: ts => do
+    let v ← full (pVal ts)
+    match v with
+    | .dict d =>
+      (match Vakt.Serialize.fromDoc d with
+       | .error .creation => pure "refused creation"
+       | .error .typeError => pure "refused typeerror"
+       | .ok r =>
+         let keys := match r.context with
+           | .list ks => ks.filterMap (fun k => match k with | PyVal.str s => some (String.ofList s) | _ => none)
+           | _ => []
+         let ks := keys.toArray.qsort (· < ·) |>.toList
+         pure ("ok uid=" ++ showVal r.uid ++ " effect=" ++ showVal r.effect ++ " type=" ++
+           toString Vakt.Generated.typeStringBased ++ " ctx=" ++ ",".intercalate ks ++ " desc=" ++ showVal r.description))
+    | _ => none
   | "POBJ" :: ts => do
     let (ctor, ts) ← pCounted pAssign ts
     let steps ← full (pCounted pAssign ts)
